@@ -1,4 +1,186 @@
-use crate::{Args, Report};
-pub fn run(_args: &Args) -> Report {
-    Report::new("todo", "".into(), "".into())
+//! B4: packed searchers (C06) on the real SIMD code: every algorithm variant the CPU offers,
+//! pattern lists built for fingerprint collisions / shared buckets / 1..4-byte fingerprints,
+//! haystack lengths 0..=100 (so every match offset modulo the vector width), every span of the
+//! short ones; compared with the leftmost-first / leftmost-longest definition.
+use crate::gen::{enc_pats, hex, show, show_pats, Rng};
+use crate::oracle::{self, Kind, M};
+use crate::{par_for, Args, Fail, Report};
+use aho_corasick::packed::{Config, MatchKind, Searcher};
+use std::panic::{catch_unwind, AssertUnwindSafe};
+
+#[derive(Clone, Copy, Debug, PartialEq, Eq)]
+pub enum Var {
+    Default,
+    RabinKarp,
+    Teddy,
+    TeddySlim128,
+    TeddySlim256,
+    TeddyFat,
+}
+const VARS: [Var; 6] = [Var::Default, Var::RabinKarp, Var::Teddy, Var::TeddySlim128, Var::TeddySlim256, Var::TeddyFat];
+
+pub fn build(var: Var, kind: Kind, pats: &[Vec<u8>]) -> Option<Searcher> {
+    let mut c = Config::new();
+    c.match_kind(if kind == Kind::LF { MatchKind::LeftmostFirst } else { MatchKind::LeftmostLongest });
+    match var {
+        Var::Default => {}
+        Var::RabinKarp => {
+            c.only_rabin_karp(true);
+        }
+        Var::Teddy => {
+            c.only_teddy(true).heuristic_pattern_limits(false);
+        }
+        Var::TeddySlim128 => {
+            c.only_teddy(true).only_teddy_fat(Some(false)).only_teddy_256bit(Some(false)).heuristic_pattern_limits(false);
+        }
+        Var::TeddySlim256 => {
+            c.only_teddy(true).only_teddy_fat(Some(false)).only_teddy_256bit(Some(true)).heuristic_pattern_limits(false);
+        }
+        Var::TeddyFat => {
+            c.only_teddy(true).only_teddy_fat(Some(true)).only_teddy_256bit(Some(true)).heuristic_pattern_limits(false);
+        }
+    }
+    let mut b = c.builder();
+    b.extend(pats.iter());
+    b.build()
+}
+
+fn cv(m: aho_corasick::Match) -> M {
+    M { pid: m.pattern().as_usize(), start: m.start(), end: m.end() }
+}
+
+pub fn lists(thorough: bool, seed: usize) -> Vec<Vec<Vec<u8>>> {
+    let mut rng = Rng(0xFA7 + seed as u64);
+    let mut v: Vec<Vec<Vec<u8>>> = vec![];
+    // fingerprint collisions: same low nybbles, different high nybbles (0x61 'a', 0x71 'q', 0x41 'A', 0x51 'Q')
+    v.push(vec![b"ab".to_vec(), b"qb".to_vec(), b"Ab".to_vec(), b"aB".to_vec()]);
+    v.push(vec![b"abc".to_vec(), b"qrs".to_vec(), b"ab".to_vec(), b"abcd".to_vec(), b"bcd".to_vec()]);
+    v.push(vec![b"a".to_vec(), b"q".to_vec(), b"aq".to_vec(), b"qa".to_vec()]);
+    // prefixes of each other in both orders (leftmost-first vs longest)
+    v.push(vec![b"abcd".to_vec(), b"ab".to_vec(), b"abc".to_vec(), b"a".to_vec()]);
+    v.push(vec![b"a".to_vec(), b"ab".to_vec(), b"abc".to_vec(), b"abcd".to_vec()]);
+    // > 8 and > 16 patterns (more patterns than buckets)
+    v.push((0..20u8).map(|i| vec![b'a' + i, b'a' + (i * 7) % 26, b'x']).collect());
+    v.push((0..40u8).map(|i| vec![b'a' + (i % 4), b'a' + i % 26, b'a' + (i / 3) % 26, b'z']).collect());
+    v.push((0..70u8).map(|i| vec![0x10 + (i % 16), 0x20 + i, 0xF0 | (i % 5)]).collect());
+    // long patterns (verification beyond the fingerprint), 1..4 byte minimum length
+    v.push(vec![vec![b'a'; 30], { let mut p = vec![b'a'; 29]; p.push(b'b'); p }]);
+    v.push(vec![b"x".to_vec(), b"abcdefghijklmnopqrstuvwxyz".to_vec()]);
+    let n = if thorough { 600 } else { 70 };
+    for i in 0..n {
+        let alpha: Vec<u8> = match i % 4 {
+            0 => b"ab".to_vec(),
+            1 => b"abqr".to_vec(),
+            2 => vec![0x61, 0x71, 0x41, 0x16, 0x17, 0x62],
+            _ => (0..(3 + rng.below(10))).map(|_| rng.below(256) as u8).collect(),
+        };
+        let npat = 1 + rng.below(if i % 5 == 0 { 40 } else { 9 });
+        let minl = 1 + rng.below(4);
+        v.push((0..npat).map(|_| { let l = minl + rng.below(5); rng.bytes(&alpha, l) }).collect());
+    }
+    v
+}
+
+pub fn run(args: &Args) -> Report {
+    let thorough = args.thorough();
+    let seed = args.num("seed", 0);
+    let rep = Report::new(
+        "packed",
+        format!("{} pattern lists (fingerprint-collision, bucket-overflow, prefix families + random), x {{leftmost-first, leftmost-longest}} x variants {:?}; haystacks of every length 0..={} (random over the list's alphabet, planted occurrences) with every span for length <= 20 and 12 sampled spans beyond",
+                lists(thorough, seed).len(), VARS, if thorough { 140 } else { 100 }),
+        "case = (pattern list, kind, variant, haystack, span): Searcher::find_in and find_iter vs the leftmost definition; non-trivial = some pattern occurs".into(),
+    );
+    if args.has("one-pats") {
+        let pats = crate::gen::dec_pats(&args.get("one-pats", "-"));
+        let hay = crate::gen::unhex(&args.get("one-hay", "x")[1..]);
+        let sp: Vec<usize> = args.get("one-span", "0,0").split(',').map(|x| x.parse().unwrap()).collect();
+        let kind = Kind::parse(&args.get("one-kind", "lf"));
+        let var = VARS[args.num("one-var", 0)];
+        if let Some(s) = build(var, kind, &pats) {
+            check(&rep, var, kind, &pats, &s, &hay, sp[0], sp[1]);
+        }
+        return rep;
+    }
+    let ls = lists(thorough, seed);
+    par_for(&ls, |pats| {
+        let mut rng = Rng(pats.len() as u64 * 31 + pats[0].len() as u64 + seed as u64);
+        let mut alpha: Vec<u8> = pats.iter().flatten().cloned().collect();
+        alpha.sort();
+        alpha.dedup();
+        alpha.push(b'.');
+        let maxlen = if thorough { 140 } else { 100 };
+        let mut hays = vec![];
+        for l in 0..=maxlen {
+            let mut h = if l % 3 == 0 { vec![b'.'; l] } else { rng.bytes(&alpha, l) };
+            for _ in 0..(1 + rng.below(2)) {
+                let p = &pats[rng.below(pats.len())];
+                if p.len() <= l {
+                    let at = rng.below(l - p.len() + 1);
+                    h[at..at + p.len()].copy_from_slice(p);
+                }
+            }
+            hays.push(h);
+        }
+        for kind in [Kind::LF, Kind::LL] {
+            for (vi, &var) in VARS.iter().enumerate() {
+                let s = match catch_unwind(AssertUnwindSafe(|| build(var, kind, pats))) {
+                    Ok(Some(s)) => s,
+                    Ok(None) => {
+                        rep.count(&format!("unavailable[{:?}]", var), 1);
+                        continue;
+                    }
+                    Err(_) => {
+                        rep.fail(Fail { key: format!("packed:build-panic:{}", show_pats(pats)), what: format!("building packed {:?} for {} panicked", var, show_pats(pats)), argv: vec![] });
+                        continue;
+                    }
+                };
+                rep.count(&format!("built[{:?}]", var), 1);
+                let _ = vi;
+                for h in &hays {
+                    if h.len() <= 20 {
+                        for st in 0..=h.len() {
+                            for e in st..=h.len() {
+                                check(&rep, var, kind, pats, &s, h, st, e);
+                            }
+                        }
+                    } else {
+                        check(&rep, var, kind, pats, &s, h, 0, h.len());
+                        let mut r2 = Rng(h.len() as u64 + 5);
+                        for _ in 0..12 {
+                            let st = r2.below(h.len());
+                            let e = st + r2.below(h.len() - st + 1);
+                            check(&rep, var, kind, pats, &s, h, st, e);
+                        }
+                    }
+                    if rep.full() {
+                        return;
+                    }
+                }
+            }
+        }
+    });
+    rep.sample(format!("e.g. patterns {}", show_pats(&ls[1])));
+    rep
+}
+
+fn check(rep: &Report, var: Var, kind: Kind, pats: &[Vec<u8>], s: &Searcher, h: &[u8], st: usize, e: usize) {
+    let want = oracle::find(pats, false, kind, h, st, e, false);
+    let got = catch_unwind(AssertUnwindSafe(|| s.find_in(h, aho_corasick::Span { start: st, end: e }).map(cv)));
+    let mut ok = matches!(&got, Ok(g) if *g == want);
+    let mut what = format!("find_in expected {:?}, got {:?}", want, got);
+    if ok && st == 0 && e == h.len() {
+        let wi = oracle::iter(pats, false, kind, h, 0, h.len(), false);
+        let gi = catch_unwind(AssertUnwindSafe(|| s.find_iter(h).map(cv).collect::<Vec<M>>()));
+        ok = matches!(&gi, Ok(g) if *g == wi);
+        what = format!("find_iter expected {:?}, got {:?}", wi, gi);
+    }
+    rep.case(want.is_some());
+    if !ok {
+        let vi = VARS.iter().position(|v| *v == var).unwrap();
+        rep.fail(Fail {
+            key: format!("packed:{}:pats={}:hay={}:span={}..{}", kind.name(), show_pats(pats), show(h), st, e),
+            what: format!("packed {:?} ({}) on {} haystack '{}' (len {}) span {}..{}: {}", var, kind.name(), show_pats(pats), show(h), h.len(), st, e, what),
+            argv: vec!["packed".into(), "--one-pats".into(), enc_pats(pats), "--one-hay".into(), format!("x{}", hex(h)), "--one-span".into(), format!("{},{}", st, e), "--one-kind".into(), kind.name().into(), "--one-var".into(), vi.to_string()],
+        });
+    }
 }
